@@ -13,13 +13,14 @@ RULE = ("A generated program (C02 generator: forward / backward label references
         "sub-directory), written into a temp working directory. Oracle: assembling the including file gives exactly "
         "the canonical result (outcome, image, every listing line, symbol table in order, origin, name, diagnostic) of "
         "assembling the spliced text; 1 case in 8 repeats the comparison through real assembler.py processes (--to_bin "
-        "bytes, --print --symbols output). Missing files and inclusion cycles must be diagnostics. Non-trivial = a "
+        "bytes, --print --symbols output). A second search includes one label-free file two or three times in a "
+        "program (side by side, or once directly and once through another file). Missing files and inclusion cycles must be diagnostics. Non-trivial = a "
         "label reference crosses a file boundary; distinct by case hash.")
 ASSUMPTIONS = [
     "the spliced program is the reference: both sides run the same assembler, the relation is metamorphic",
     "INCLUDE lines carry no label (a label on an INCLUDE line has no defined meaning)",
 ]
-HEALTH = {"crossing_reference": 0.08, "nested": 0.04, "cli": 16}
+HEALTH = {"crossing_reference": 0.08, "nested": 0.04, "cli": 16, "repeated_include": 200}
 EXHAUSTIVE = {}
 
 _FN = ["a", "b", "cc", "defs", "zzzzzzzz", "m", "inc/sub", "inc/deep"]
@@ -43,13 +44,44 @@ NEGATIVE = [
 ]
 
 
+# a label-free file included more than once (INCLUDE as a poor man's macro): siblings, or once directly and once
+# through another file (diamond)
+_MACRO_POOL = [" NOP \n", " LDA #1\n", " STA $0400\n", " LDA ,X+\n", " LEAX 1,X\n", " LEAY 100,Y\n", " PSHS A,B\n", " FCB 1,2,3\n",
+               " FDB $1234\n", " LDB <$10\n", " JSR $A30A\n", " RMB 2\n", " FCC /hi/\n", " LDD [$2000]\n", " CMPX #$00FF\n"]
+_repeat = st.fixed_dictionaries(dict(
+    prog=proggen.small_program, at=st.lists(st.integers(0, 40), min_size=2, max_size=3),
+    macro=st.lists(st.integers(0, len(_MACRO_POOL) - 1), min_size=1, max_size=4), diamond=st.booleans(),
+    names=st.permutations(_FN), cli=st.integers(0, 7), rep=st.just(True)))
+
+
+def build_repeat(case):
+    """-> (flat lines, files, main)"""
+    lines = proggen.render(case["prog"])
+    macro = [_MACRO_POOL[i] for i in case["macro"]]
+    first = 1 if lines and " ORG " in lines[0] else 0
+    at = sorted(first + a % (len(lines) - first + 1) for a in case["at"])
+    mname, wname = case["names"][0] + ".asm", case["names"][1] + ".asm"
+    flat, main = [], []
+    prev = 0
+    for k, a in enumerate(at):
+        flat += lines[prev:a] + macro
+        main += lines[prev:a] + [" INCLUDE {}\n".format(wname if case["diamond"] and k == len(at) - 1 else mname)]
+        prev = a
+    flat += lines[prev:]
+    main += lines[prev:]
+    files = {"main.asm": main, mname: macro}
+    if case["diamond"]:
+        files[wname] = [" INCLUDE {}\n".format(mname)]
+    return flat, files, "main.asm"
+
+
 def enumerated(tier, seed):
     for name, files in NEGATIVE:
         yield dict(neg=name, files=files)
 
 
 def searches(tier):
-    return [("splits", _case, 2400 if tier == "quick" else 100000)]
+    return [("splits", _case, 2400 if tier == "quick" else 100000), ("repeated", _repeat, 800 if tier == "quick" else 30000)]
 
 
 def split(lines, cuts, nested, names):
@@ -104,6 +136,9 @@ def split(lines, cuts, nested, names):
 def render(case):
     if "neg" in case:
         return case
+    if case.get("rep"):
+        flat, files, main = build_repeat(case)
+        return dict(repeated=True, files=dict((k, [l.rstrip("\n") for l in v][:15]) for k, v in files.items()))
     lines = proggen.render(case["prog"])
     files, main = split(lines, case["cuts"], case["nested"], case["names"])
     return dict(nested=case["nested"], files=dict((k, [l.rstrip("\n") for l in v][:15]) for k, v in files.items()))
@@ -149,14 +184,19 @@ def execute_negative(case):
 def execute(case):
     if "neg" in case:
         return execute_negative(case)
-    lines = proggen.render(case["prog"])
-    files, main = split(lines, case["cuts"], case["nested"], case["names"])
     labels = []
-    if len(files) < 2:
-        return skip("no include file produced by these cuts", labels=labels)
-    if case["nested"] and len(files) >= 3:
-        labels.append("nested")
-    crossing = _crossing(case["prog"], files)
+    if case.get("rep"):
+        lines, files, main = build_repeat(case)
+        labels.append("repeated_include")
+        crossing = True
+    else:
+        lines = proggen.render(case["prog"])
+        files, main = split(lines, case["cuts"], case["nested"], case["names"])
+        if len(files) < 2:
+            return skip("no include file produced by these cuts", labels=labels)
+        if case["nested"] and len(files) >= 3:
+            labels.append("nested")
+        crossing = _crossing(case["prog"], files)
     if crossing:
         labels.append("crossing_reference")
     with driver.TempDir() as tmp:
